@@ -27,7 +27,7 @@ import (
 	authtypes "github.com/cosmos/cosmos-sdk/x/auth/types"
 )
 
-func init() { props["C16"] = func(r *Rec) { runC16(r); recFor(r, "C16") } }
+func init() { props["C16"] = func(r *Rec) { runC16(r); c16Signers(r); recFor(r, "C16") } }
 
 const (
 	kfC16WholePath = "C16/setkeys-whole/unique-list-extended-without-duplicate-scan"
@@ -1299,6 +1299,31 @@ func runC16(r *Rec) {
 				continue
 			}
 			e.randomOp(nLive)
+		}
+	}
+}
+
+// c16Signers: "only an address itself can create, change or delete its records" rests on the ante chain asking for the
+// signature of exactly the address the handler acts for. For each of the five identity messages the declared signer must
+// be the named address - also when that address is not 20 bytes long (module-derived and interchain accounts are 32).
+func c16Signers(r *Rec) {
+	short := sdk.AccAddress([]byte("aaaaaaaaaaaaaaaaaaaa"))
+	long := sdk.AccAddress(append([]byte("aaaaaaaaaaaaaaaaaaaa"), []byte("bbbbbbbbbbbb")...))
+	other := sdk.AccAddress([]byte("cccccccccccccccccccc"))
+	for _, a := range []sdk.AccAddress{short, long, sdk.AccAddress([]byte("aaaaaaaaaaaaaaaaaaaab"))} {
+		msgs := map[string]sdk.Msg{
+			"register": govtypes.NewMsgRegisterIdentityRecords(a, []govtypes.IdentityInfoEntry{{Key: "k", Info: "v"}}),
+			"delete":   govtypes.NewMsgDeleteIdentityRecords(a, []string{"k"}),
+			"request":  govtypes.NewMsgRequestIdentityRecordsVerify(a, other, []uint64{1}, sdk.NewInt64Coin("ukex", 200)),
+			"handle":   govtypes.NewMsgHandleIdentityRecordsVerifyRequest(a, 1, true),
+			"cancel":   govtypes.NewMsgCancelIdentityRecordsVerifyRequest(a, 1),
+		}
+		for kind, m := range msgs {
+			r.Count("oracle:C16/signers")
+			ss := m.GetSigners()
+			if len(ss) != 1 || !ss[0].Equals(a) {
+				r.Fail("C16/signers/identity-message-signed-by-another-address", fmt.Sprintf("the %s message acting for the %d-byte address %X declares the signer(s) %X: a key that does not control that address can act for it", kind, len(a), []byte(a), ss), nil)
+			}
 		}
 	}
 }
